@@ -934,9 +934,18 @@ LEADING_PARAMS = {
 }
 
 
+def _is_default_float(t) -> bool:
+    t = as_term(t)
+    if isinstance(t, Sym):
+        return t.name in ("numpy.float64", "numpy.double", "numpy.float_", "builtins.float", "float")
+    return isinstance(t, Lit) and t.value in ("float64", "float", "d", "f8", "double")
+
+
 def make_app(fn: str, args, kw=None) -> T:
     args = [as_term(a) for a in args]
     kw = dict(kw or {})
+    if fn in ("numpy.zeros", "numpy.ones", "numpy.empty") and "dtype" in kw and _is_default_float(kw["dtype"]):
+        kw.pop("dtype")                 # float64 is what these constructors produce anyway
     lead = LEADING_PARAMS.get(fn)
     if lead and kw:
         while len(args) < len(lead) and lead[len(args)] in kw:
@@ -1088,6 +1097,10 @@ def length(s: T) -> T:
         if q1 is not None:
             return add(q1, ONE)           # range(lo, lo + q*step + 1, step): ceil((q*step + 1) / step) = q + 1 for step >= 1
         return App("len", (s,))
+    if isinstance(s, Attr) and s.name == "clusters":
+        # a model state holds one ClusterParameters per cluster id: len(state.clusters) is state.arguments.num_clusters (the list is
+        # created with K entries - C13 `K:empty-model` - and every write to it keeps its length - C13.R6); one spelling for both
+        return Attr(Attr(s.base, "arguments"), "num_clusters")
     return App("len", (s,))
 
 
